@@ -264,3 +264,36 @@ func Verif_C20_format() {
 	verifAssert(ok && got == want, "file name = prefix + cased words joined by the text between go and designer + suffix")
 	verifReach("formatted")
 }
+
+// H20c: templates with non-ASCII text around the (ASCII) words.  The words,
+// their casing and the prefix/separator/suffix are found bytewise exactly as
+// above (non-ASCII bytes never match a letter), so the statement fixes the
+// result.  Concrete templates (the engine's case mapping is exact on concrete
+// strings only), symbolic identifier.
+var verifUnicodeTemplates = []string{
+	"ɐgodesigner",   // U+0250: its upper-case form is one byte longer
+	"goɐdesigner",   // the same rune as the separator
+	"ıgo_designer",  // U+0131: its upper-case form is one byte shorter
+	"go_designer_é", // U+00E9: same length in both cases
+}
+
+func Verif_C20_format_unicode() {
+	tpl := verifUnicodeTemplates[verifCase(len(verifUnicodeTemplates))]
+	id := verifString("id", verifParam("identU"))
+	verifASCII(id)
+	verifIdentAlphabet(id)
+	var got string
+	var err error
+	_, panicked := verifExpectPanic(func() { got, err = FileNamingFormat(tpl, id) })
+	verifAssert(!panicked, "FileNamingFormat never panics")
+	if panicked {
+		return
+	}
+	want, ok := verifReference(tpl, id)
+	verifAssert((err == nil) == ok, "error exactly for templates lacking go..designer in order or in mixed casing")
+	if err != nil {
+		return
+	}
+	verifAssert(got == want, "file name = prefix + cased words joined by the text between go and designer + suffix")
+	verifReach("formatted-unicode")
+}
